@@ -3,17 +3,18 @@ package main
 
 import (
 	"bytes"
+	"encoding/json"
+	"flag"
+	"fmt"
 	"go/ast"
 	"go/parser"
 	"go/printer"
 	"go/token"
-	"encoding/json"
-	"flag"
-	"fmt"
 	"os"
 	"os/exec"
 	"path/filepath"
 	"regexp"
+	"runtime"
 	"sort"
 	"strconv"
 	"strings"
@@ -50,7 +51,7 @@ var (
 	prop     = flag.String("prop", "", "property id (e.g. C15)")
 	tier     = flag.String("tier", "quick", "quick | thorough")
 	only     = flag.String("only", "", "regexp selecting harness functions")
-	jobs     = flag.Int("j", 16, "parallel workers")
+	jobs     = flag.Int("j", 0, "parallel workers (0 = number of CPUs, at most 16)")
 	solver   = flag.String("solver", "z3-new", "solver binary")
 	replayF  = flag.String("replay", "", "replay a counterexample file natively")
 	noReplay = flag.Bool("noreplay", false, "do not replay counterexamples natively (debug)")
@@ -116,6 +117,12 @@ func tierNum() int {
 
 func main() {
 	flag.Parse()
+	if *jobs <= 0 {
+		*jobs = runtime.NumCPU()
+		if *jobs > 16 {
+			*jobs = 16
+		}
+	}
 	if *replayF != "" {
 		os.Exit(replayMain(*replayF))
 	}
@@ -245,7 +252,7 @@ func checkMain() int {
 			kregs = append(kregs, sym.KnownRegion{Obligation: k.Obligation, Region: k.Region, What: k.What, Status: k.Status})
 		}
 	}
-	budget := 240 * time.Second
+	budget := 600 * time.Second // per harness; the quick harnesses finish in well under two minutes each on an idle 16-core machine
 	if *tier == "thorough" {
 		budget = 1500 * time.Second
 	}
